@@ -22,6 +22,7 @@
 #include "upipe/uprobe_uref_mgr.h"
 #include "upipe/upipe.h"
 #include "upipe/upump.h"
+#include "upipe/umutex.h"
 #include "upipe/upipe_helper_upipe.h"
 #include "upipe/upipe_helper_urefcount.h"
 #include "upipe/upipe_helper_void.h"
@@ -77,6 +78,35 @@ struct remote { struct urefcount urefcount; struct upipe *output; bool transferr
 UPIPE_HELPER_UPIPE(remote, upipe, REMOTE_SIGNATURE)
 enum { RE_ALLOC, RE_ATTACH, RE_INPUT, RE_SET_FLOW_DEF, RE_SET_OUTPUT, RE_GET_OUTPUT, RE_OTHER, RE_FREE };
 static bool frozen_window;      /* the application froze the worker loop and is allowed in */
+
+/* ---- the mutex of the transfer manager: held by the worker while it runs
+ * callbacks, taken by the application to freeze the worker's loop.  Owner
+ * tracking tells whether an entry into the remote pipe from the application
+ * thread happens inside a frozen window. ---- */
+static struct xmutex { struct umutex umutex; struct urefcount rc; pthread_mutex_t m; int owner; int depth; } xm;
+#define XM_OWNER() __atomic_load_n(&xm.owner, __ATOMIC_SEQ_CST)
+#define XM_SET_OWNER(v) __atomic_store_n(&xm.owner, (v), __ATOMIC_SEQ_CST)
+static bool xm_free(void *arg) { (void)arg; return XM_OWNER() == -1; }
+static int xm_lock(struct umutex *u)
+{
+    (void)u;
+    if (XM_OWNER() == my_thr) { xm.depth++; return UBASE_ERR_NONE; }
+    if (free_running) pthread_mutex_lock(&xm.m);
+    else while (XM_OWNER() != -1) if (!sched_block(xm_free, NULL)) return UBASE_ERR_BUSY;
+    xm.depth = 1; XM_SET_OWNER(my_thr);
+    return UBASE_ERR_NONE;
+}
+static int xm_unlock(struct umutex *u)
+{
+    (void)u;
+    if (XM_OWNER() != my_thr) return UBASE_ERR_INVALID;
+    if (--xm.depth) return UBASE_ERR_NONE;
+    XM_SET_OWNER(-1);
+    if (free_running) pthread_mutex_unlock(&xm.m);
+    return UBASE_ERR_NONE;
+}
+static void xm_dead(struct urefcount *rc) { (void)rc; }
+static bool use_mutex;
 static bool last_alloc_got_mgr;  /* the last remote pipe allocated obtained a upump manager at allocation */
 
 static void remote_free(struct urefcount *urefcount)
@@ -135,7 +165,7 @@ static int remote_control(struct upipe *upipe, int command, va_list args)
         case UPIPE_GET_OUTPUT: wlog(W_REMOTE_ENTRY, RE_GET_OUTPUT, r->transferred); *va_arg(args, struct upipe **) = r->output; return UBASE_ERR_NONE;
         case UPIPE_REGISTER_REQUEST: wlog(W_REMOTE_ENTRY, RE_OTHER, r->transferred); return r->output ? upipe_register_request(r->output, va_arg(args, struct urequest *)) : upipe_throw_provide_request(upipe, va_arg(args, struct urequest *));
         case UPIPE_UNREGISTER_REQUEST: wlog(W_REMOTE_ENTRY, RE_OTHER, r->transferred); return r->output ? upipe_unregister_request(r->output, va_arg(args, struct urequest *)) : UBASE_ERR_NONE;
-        default: wlog(W_REMOTE_ENTRY, RE_OTHER, r->transferred); return UBASE_ERR_UNHANDLED;
+        default: wlog(W_REMOTE_ENTRY, RE_OTHER, (uint64_t)r->transferred | (use_mutex && XM_OWNER() == 0 ? 2 : 0)); VH_COUNT("c06.remote_controls"); return UBASE_ERR_UNHANDLED;
     }
 }
 static struct upipe_mgr remote_mgr = { .refcount = NULL, .signature = REMOTE_SIGNATURE, .upipe_alloc = remote_alloc, .upipe_input = remote_input, .upipe_control = remote_control };
@@ -210,7 +240,13 @@ static void run_mock_until_idle(int t)
 {
     /* runs the loop until it has no active watcher at all (as upump_mgr_run does) */
     for (;;) {
-        if (mockloop_has_ready(loops[t])) { mockloop_step(loops[t], &rngs[t]); continue; }
+        if (mockloop_has_ready(loops[t])) {
+            bool lk = use_mutex && t == 1;
+            if (lk) xm_lock(&xm.umutex);
+            if (mockloop_has_ready(loops[t])) mockloop_step(loops[t], &rngs[t]);
+            if (lk) xm_unlock(&xm.umutex);
+            continue;
+        }
         if (mockloop_nb_active(loops[t]) == 0) return;
         if (!sched_block(loop_pred, (void *)(intptr_t)t)) return;
     }
@@ -225,7 +261,7 @@ static void worker(void *arg)
     upipe_xfer_mgr_attach(xfer_mgr, loops[1]);
     upipe_mgr_release(xfer_mgr);
     worker_attached = true;
-    if (free_running) ev_run(evloops[1], 0);
+    if (free_running) { if (use_mutex) upump_mgr_run(loops[1], &xm.umutex); else ev_run(evloops[1], 0); }
     else run_mock_until_idle(1);
 }
 
@@ -245,6 +281,12 @@ static void application(void *arg)
         struct uref *u = uref_alloc_control(uref_mgr);
         uref_attr_set_unsigned(u, (uint64_t)i, UDICT_TYPE_UNSIGNED, "x.seq");
         upipe_input(handle, u, NULL);
+        if (vh_chance(&rngs[0], 1, 4)) {
+            /* a command the queue pipes do not handle: with a mutex the worker
+             * pipe freezes the remote loop and forwards it from this thread */
+            upipe_set_option(handle, "verif", "x");
+            VH_COUNT("c06.controls_sent_to_worker_pipe");
+        }
         if (!free_running && vh_chance(&rngs[0], 1, 3)) while (mockloop_has_ready(loops[0]) && vh_chance(&rngs[0], 2, 3)) mockloop_step(loops[0], &rngs[0]);
         if (free_running && vh_chance(&rngs[0], 1, 3)) ev_run(evloops[0], EVRUN_NOWAIT);
     }
@@ -298,7 +340,18 @@ static void run_case(struct vh_rng *r)
     struct upipe *remote = upipe_void_alloc(&remote_mgr, uprobe_use(&remote_probe));
     if (outer_freeze && last_alloc_got_mgr)
         vh_violation_noabort("c06:worker:upump-mgr-given-inside-frozen-section", "a pipe allocated inside a frozen section obtained the application's event loop manager");
-    xfer_mgr = upipe_xfer_mgr_alloc(xfer_q, 2, NULL);
+    use_mutex = vh_chance(R, 1, 2);
+    if (use_mutex) {
+        memset(&xm, 0, sizeof(xm));
+        pthread_mutex_init(&xm.m, NULL);
+        XM_SET_OWNER(-1);
+        urefcount_init(&xm.rc, xm_dead);
+        xm.umutex.refcount = &xm.rc;
+        xm.umutex.umutex_lock = xm_lock;
+        xm.umutex.umutex_unlock = xm_unlock;
+        VH_COUNT("c06.programs_with_mutex");
+    }
+    xfer_mgr = upipe_xfer_mgr_alloc(xfer_q, 2, use_mutex ? &xm.umutex : NULL);
     upipe_mgr_use(xfer_mgr);        /* reference handed to the worker thread */
     struct upipe_mgr *wlin_mgr = upipe_wlin_mgr_alloc(xfer_mgr);
     upipe_mgr_release(xfer_mgr);
@@ -344,7 +397,7 @@ static void run_case(struct vh_rng *r)
     if (vh_opts.verbose) for (int t = 0; t < 2; t++) { fprintf(stderr, "LOG T%d:", t); for (int i = 0; i < logs[t].n; i++) fprintf(stderr, " %d/%d/%" PRIu64 "@%d", logs[t].e[i].kind, logs[t].e[i].a, logs[t].e[i].b, logs[t].e[i].thread); fprintf(stderr, "\n active A=%d W=%d\n", mockloop_nb_active(loops[0]), mockloop_nb_active(loops[1])); }
     /* ---------------- checks ---------------- */
     if (res.deadlock)
-        vh_violation_noabort("c06:worker:deadlock", "application and worker loops both asleep with work remaining (%d buffers, queues %d/%d)", nbuf, in_q, out_q);
+        vh_violation_noabort("c06:worker:deadlock", "application and worker loops both asleep with work remaining (%d buffers, queues %d/%d; mutex %s owner %d depth %d)", nbuf, in_q, out_q, use_mutex ? "used" : "none", XM_OWNER(), xm.depth);
     else {
         uint64_t next = 0; int got = 0;
         bool def_seen = false;
@@ -353,7 +406,8 @@ static void run_case(struct vh_rng *r)
             switch (e->kind) {
                 case W_REMOTE_ENTRY:
                     /* after the transfer, the remote pipe is only entered from the worker thread */
-                    if (e->b && e->thread != 1 && e->a != RE_ALLOC) {
+                    if ((e->b & 2) && e->thread == 0) VH_COUNT("c06.remote_entered_inside_frozen_window");
+                    if ((e->b & 1) && e->thread != 1 && e->a != RE_ALLOC && !(e->b & 2)) {
                         static const char *nm[] = { "alloc", "attach_upump_mgr", "input", "set_flow_def", "set_output", "get_output", "control", "free" };
                         char key[96]; snprintf(key, sizeof(key), "c06:worker:remote-entered-from-wrong-thread:%s", nm[e->a]);
                         vh_violation_noabort(key, "the transferred pipe was entered (%s) from thread %d", nm[e->a], e->thread);
